@@ -157,8 +157,15 @@ class VerTheory:
             return V.post(t)
         if attr == "is_devrelease":
             return V.dev(t)
-        if attr == "post":
-            raise OutsideSubset("Version.post (an int or None) is not modelled; use is_postrelease")
+        if attr in ("pre", "post", "dev"):
+            # packaging: `pre` is None or an ("a"|"b"|"rc", N) pair, `post` / `dev` are None or the segment's number (N >= 0).  The flag says
+            # whether the segment is there; its number is an unconstrained non-negative integer (T-VER orders versions by `ord`, not by it)
+            flag = {"pre": V.pre, "post": V.post, "dev": V.dev}[attr](t)
+            if attr == "pre":
+                return Opt(flag, z3.Int(fresh_name("prepair")), "pair")
+            num = z3.Int(fresh_name(attr + "num"))
+            ex.assume(num >= 0)
+            return Opt(flag, num, "int")
         raise OutsideSubset(f"Version.{attr}")
 
     def equals(self, ex, l, r):
